@@ -260,8 +260,14 @@ func placeFault(t *kernel.Tape, s *scn) {
 		if len(s.Files) > 0 {
 			f := &s.Files[t.Choose(len(s.Files), "fault-file")]
 			f.ErrAt = t.Choose(f.Len+1, "fault-off")
-			if f.Len >= 513 && t.Bool(3, "fault-at-the-sniffing-window-edge") {
+			if f.Len >= 513 && t.Bool(2, "fault-at-the-sniffing-window-edge") {
 				f.ErrAt = []int{511, 512, 513}[t.Choose(3, "window-edge")]
+				// the variants that matter at an edge: the error rides along with the last byte before it, and is said once
+				f.WithData = t.Bool(2, "edge-error-with-data")
+				f.HasCT = false
+				if t.Bool(2, "edge-error-said-once") {
+					s.SrcErrOnce = true
+				}
 			}
 		}
 	case "payload-src":
